@@ -1,7 +1,7 @@
 import VaxisModel.Model.GoSyn
 
 /-! The statement skeletons of vxfw/list/list.go `Dynamic`'s methods that `Model/DynList.lean` transcribes
-    (a copy of `Gen/DynSkel.lean` as of /repo 14bcb60, taken when the model was written).  `Props/C19Tie.lean`
+    (a copy of `Gen/DynSkel.lean` as of /repo ee95cee, taken when the model was written).  `Props/C19Tie.lean`
     proves the regenerated skeletons equal to these, statement by statement: a change of the source
     shows up as a failing `skeleton_*` theorem naming the method. -/
 namespace VaxisModel.Lemmas.DynSkelExpected
@@ -149,7 +149,8 @@ def ensureScroll : List Line := [
   ⟨1, .assign, (.var "d.scroll.wantsCursor"), (.var "true")⟩,
   ⟨1, .returnS, .none, .none⟩,
   ⟨0, .assign, (.var "d.scroll.top"), (.var "d.cursor")⟩,
-  ⟨0, .assign, (.var "d.scroll.offset"), (.int 0)⟩]
+  ⟨0, .assign, (.var "d.scroll.offset"), (.int 0)⟩,
+  ⟨0, .assign, (.var "d.scroll.pending"), (.int 0)⟩]
 
 /-- `Dynamic.SetCursor` -/
 def setCursor : List Line := [
